@@ -30,15 +30,16 @@ impl fmt::Display for CompileError {
         let caret_len = (self.span.end - self.span.start).max(1);
         let annotation = self.kind.annotation();
 
+        // the padding is a string, not a `{:>start$}` width: a width above u16::MAX
+        // panics in the formatter, and a column can be that large on a long line
         writeln!(
             f,
-            "{:width$} | {:>start$}{} {}",
+            "{:width$} | {}{} {}",
             "",
-            "",
+            " ".repeat(caret_start),
             "^".repeat(caret_len),
             annotation,
             width = line_num_width,
-            start = caret_start,
         )?;
 
         Ok(())
